@@ -431,7 +431,14 @@ def _pop_line_before_zid(words: list[str]) -> str:
     priority = ""
     if len(words[0]) == 2 and words[0][0] == "P" and words[0][1].isdigit():
         priority = f"{words.pop(0)} "
-    return f"{spaces}{symbol} {priority}"
+
+    # Keep any extra spaces the user typed between the prefix and the body in
+    # front of whatever we insert (otherwise they end up inside the body).
+    extra_spaces = ""
+    while len(words) > 1 and words[0] == "":
+        extra_spaces += " "
+        words.pop(0)
+    return f"{spaces}{symbol} {priority}{extra_spaces}"
 
 
 def _update_zo_file(
